@@ -5,7 +5,9 @@ PROP = {
   "saml2_tophat.sigver:SecurityContext.decrypt_keys",
   "saml2_tophat.response:AuthnResponse.decrypt_assertions",
   "saml2_tophat.response:AuthnResponse._assertion",
-  "saml2_tophat.response:AuthnResponse.verify"
+  "saml2_tophat.response:AuthnResponse.verify",
+  "saml2_tophat.sigver:SecurityContext.decrypt",
+  "saml2_tophat.response:AuthnResponse.check_subject_confirmation_in_response_to"
  ],
  "bounded": [
   "sig_table"
